@@ -8,7 +8,8 @@ PROPS = ["C20"]
 SCENARIOS = ["timers_vs_inbound", "senders_vs_inbound_resend", "senders_vs_timers", "logon_vs_senders",
              "logout_stop_vs_all", "registration_vs_dispatch", "silent_peer_disconnect", "resend_of_timer_messages",
              "testrequest_answer_vs_queries", "calls_during_slow_logon", "stop_vs_logout_answer",
-             "sessions_sharing_an_unmarshaller", "connection_dies_under_load"]
+             "sessions_sharing_an_unmarshaller", "connection_dies_under_load",
+             "relogon_after_stop_vs_context"]
 LIB = "github.com/b2broker/simplefix-go"
 
 
